@@ -766,6 +766,9 @@ func (s *Sim) Revoke(t *Tok, as, hint string, badSecret bool) *world.Out {
 	case foreign && state == "live":
 		if out.ErrName != "unauthorized_client" {
 			s.viol("revoke-foreign-class", originKey(t), "foreign client revocation answered '"+out.ErrName+"' instead of unauthorized_client")
+		} else if out.Status/100 == 2 || fmt.Sprint(out.JSON["error"]) != "unauthorized_client" {
+			// the refusal has to reach the caller: what the endpoint writes for it
+			s.viol("revoke-foreign-class", originKey(t)+" on the wire", fmt.Sprintf("the library refused the foreign client's revocation as unauthorized_client, but the response written for it is HTTP %d %s", out.Status, out.Body))
 		}
 	case foreign:
 		s.R.Unspecified("foreign-revocation-of-" + state)
